@@ -60,6 +60,20 @@ def gen_specs(rng):
         specs = pair + ([dict(type="back", seq=rnd_seq(rng, L, "ACGT"), name="b3", max_errors=0.1, min_overlap=3, indels=True)] if rng.random() < 0.4 else [])
         rng.shuffle(specs)
         return specs
+    if rng.random() < 0.2:
+        # a wildcard-rich ("UMI + adapter") variant of an earlier adapter given after it: matched N positions count for
+        # the score, so the later one must win on reads that carry the longer construct
+        src = rng.choice([sp for sp in specs if sp["type"] != "linked"] or [None])
+        if src is not None:
+            k = rng.randint(2, 8)
+            d = dict(src)
+            d["name"] = f"a{len(specs)}"
+            d["umi_of"] = src["name"]
+            if src["type"] in ("front", "prefix", "nfront", "rightmost"):
+                d["seq"] = src["seq"] + "N" * k
+            else:
+                d["seq"] = "N" * k + src["seq"]
+            specs.append(d)
     if rng.random() < 0.25:
         # exact duplicate sequence under another name: ties on score and errors -> first given wins
         d = dict(rng.choice(specs))
@@ -97,6 +111,8 @@ def gen_read(rng, specs):
     for _ in range(rng.choice([0, 1, 1, 2, 3])):
         sp = rng.choice(specs)
         a = sp["seq"] if rng.random() < 0.6 or "seq2" not in sp else sp["seq2"]
+        if "N" in a:
+            a = "".join(c if c != "N" else rng.choice("ACGT") for c in a)
         r = rng.random()
         if r < 0.2:
             a = a[: rng.randint(1, len(a))]
